@@ -384,15 +384,15 @@ func drawC19(t *rapid.T, cli bool) C19Case {
 	}
 	j := gen.GenJournal(t, cfg)
 	c := C19Case{Directives: j.Directives}
-	c.V = rapid.SampledFrom(append([]string{"", ""}, j.Commodities...)).Draw(t, "valuation")
+	c.V = rapid.SampledFrom(append([]string{""}, j.Commodities...)).Draw(t, "valuation")
 	c.Interval = rapid.SampledFrom([]int{0, 2, 3, 3, 4, 5}).Draw(t, "interval")
 	c.Procs = rapid.SampledFrom([]int{1, 2, 4, 16}).Draw(t, "procs")
 	c.Pipeline = rapid.SampledFrom([]string{"balance", "balance", "balance", "check", "weights", "returns"}).Draw(t, "pipeline")
 	if (c.Pipeline == "weights" || c.Pipeline == "returns") && c.V == "" {
 		c.V = j.Commodities[0]
 	}
-	if c.Pipeline == "balance" && rapid.IntRange(0, 1).Draw(t, "mapping") == 0 {
-		m := gen.Mapping{Level: rapid.IntRange(1, 2).Draw(t, "mLevel"), Suffix: rapid.SampledFrom([]int{0, 1, 1, 2}).Draw(t, "mSuffix")}
+	if c.Pipeline == "balance" && rapid.IntRange(0, 2).Draw(t, "mapping") != 0 {
+		m := gen.Mapping{Level: rapid.IntRange(1, 3).Draw(t, "mLevel"), Suffix: rapid.SampledFrom([]int{0, 0, 1, 1, 2}).Draw(t, "mSuffix")}
 		c.Mapping = &m
 	}
 	if c.Pipeline == "balance" && rapid.IntRange(0, 3).Draw(t, "remap") == 0 {
@@ -542,7 +542,20 @@ func checkC19Registry(c C19RegCase) (o Outcome) {
 					// each goroutine walks the names from a different starting point
 					i := (k + g*len(c.Names)/c.Goroutines) % len(c.Names)
 					if c.Accounts {
-						a, err := reg.Accounts().Get(c.Names[i])
+						// the three ways the pipeline stages reach the account tree: by name, by path, by valuation mirror
+						var a *model.Account
+						var err error
+						switch (g + k) % 3 {
+						case 0:
+							a, err = reg.Accounts().Get(c.Names[i])
+						case 1:
+							a, err = reg.Accounts().GetPath(strings.Split(c.Names[i], ":"))
+						default:
+							a, err = reg.Accounts().Get(c.Names[i])
+							if err == nil && a.IsAL() {
+								reg.Accounts().ValuationAccountFor(a)
+							}
+						}
 						if err != nil {
 							panic(err)
 						}
